@@ -176,7 +176,7 @@ class EnsembleAdapter:
         elif a == "newcopy":
             self._drop()
             n = int(act.get("n", 0))
-            if n == 0 and self.rnd.random() < 0.4:
+            if n == 0 and e.n_conformers > 0 and self.rnd.random() < 0.4:     # (a conformerless source is not adopted: no copy route)
                 # the other public way to the same copy: an ensemble without atoms adopts atoms, bonds and conformers of the
                 # first ensemble it is extended with; source and copy are independent afterwards (seeded change C14-k)
                 d = self.CE()
